@@ -341,8 +341,24 @@ func (e *envA) doCopy(ctx context.Context, op Op) *evid.Violation {
 	var mu sync.Mutex
 	var viol *evid.Violation
 	var finished atomic.Bool
+	// the first source request of a copy fetches the top manifest; with a second one it may have started on the content
+	firstSeq := e.m.Requests() + 1
 	k := 0
 	opts := copyOpts(op.Platforms, op.Referrers, op.DigestTags, op.Force, op.External, op.Child)
+	// sawWork: the copy got as far as starting to copy something below the top manifest (a copy that fails before that,
+	// e.g. because the source does not exist, has started no goroutine it could leave behind)
+	var sawWork atomic.Bool
+	if op.From == "reg" {
+		e.m.Lock()
+		e.m.OnArrive = func(en *rm.Entry) {
+			if en.Host == srcHost && en.Seq >= firstSeq {
+				sawWork.Store(true)
+			}
+		}
+		e.m.Unlock()
+	} else {
+		sawWork.Store(true)
+	}
 	if op.CloseEvery > 0 {
 		closeRef := e.tgtRef(0, "")
 		// tick is called at instants at which this ImageCopy provably is in progress: from inside one of its own source
@@ -380,6 +396,9 @@ func (e *envA) doCopy(ctx context.Context, op Op) *evid.Violation {
 		e.m.Lock()
 		e.m.OnArrive = func(en *rm.Entry) {
 			if en.Host == srcHost {
+				if en.Seq >= firstSeq {
+					sawWork.Store(true)
+				}
 				tick("inside its source request " + en.Method + " " + en.Path)
 			}
 		}
@@ -429,7 +448,7 @@ func (e *envA) doCopy(ctx context.Context, op Op) *evid.Violation {
 	}
 	mu.Lock()
 	defer mu.Unlock()
-	if cerr != nil && (op.Referrers || op.DigestTags) {
+	if cerr != nil && (op.Referrers || op.DigestTags) && op.From != "self" && sawWork.Load() {
 		// known finding sigStray: this copy may have returned while goroutines it started still copy blobs. From here on
 		// the completeness clause cannot be judged in this history, and what its own events observed belongs to that finding.
 		e.tainted = true
